@@ -11,14 +11,14 @@ import (
 
 // CEnv is the evaluation environment of a contract expression.
 type CEnv struct {
-	x       *Exec
-	st      *State // state for heap reads
-	old     *State // state for old(...)
-	lookup  func(name string) (Val, bool)
-	oldLook func(name string) (Val, bool) // names inside old(); nil = same as lookup
-	bound   map[string]Val                // quantifier / spec parameters
-	pkg     *types.Package                // for globals and named types
-	inOld   bool
+	x        *Exec
+	st       *State // state for heap reads
+	old      *State // state for old(...)
+	lookup   func(name string) (Val, bool)
+	oldLook  func(name string) (Val, bool) // names inside old(); nil = same as lookup
+	bound    map[string]Val                // quantifier / spec parameters
+	pkg      *types.Package                // for globals and named types
+	inOld    bool
 	oldAlloc *Term // allocation counter at entry (for fresh())
 	specMode bool  // evaluating a spec-function body (no heap access)
 }
